@@ -371,13 +371,11 @@ impl AbstractInstructionSet {
                 Either::Left(VirtualOp::DIV(..)) => transform_operator! {DIV, DIVI;
                     both_known: u64::checked_div;
                     if right is 1 assign left;
-                    if left is 0 assign 0;
                 },
                 Either::Left(VirtualOp::EXP(..)) => transform_operator! {EXP, EXPI;
                     both_known: u64::checked_pow;
                     if right is 0 assign 1;
                     if right is 1 assign left;
-                    if left is 0 assign 0;
                     if left is 1 assign 1;
                 },
                 Either::Left(VirtualOp::MLOG(..)) => transform_operator! {MLOG, None;
